@@ -39,12 +39,13 @@ BOUNDS = {
              'x {tuple, iterator, set}, ints [-2, len+2], the 5 unary lambdas, pair family length <= 3, nested family <= 2, dicts <= 2 keys, '
              'set pairs <= 3 elements; 2-pipelines: every ordered pair of call forms (one instance each) on sequences over '
              '{1,2,null} of length <= 2 x {tuple, iterator}; 3-chains over a 12-instance streaming core (+5 terminal searches) on '
-             'the same sequences',
+             'sequences over {2,null} of length <= 2; dictionaries as elements of hash-based functions (equal values, different '
+             'key order; data and literals) length <= 2',
     'thorough': 'single operators: sequences over {1,2,3,null,a} of length <= 4 (781; forms with > 24 argument combinations: <= 3), '
                 'pair family length <= 4, nested family <= 3, dicts <= 3 keys, set pairs <= 5 elements; 2-pipelines: every ordered pair of '
                 'instances over the reduced argument alphabet on sequences over {1,2,null,a} of length <= 2, and one instance per '
                 'form on length 3; 3-chains over the 16-instance core on {1,2,null} length <= 3; 4-chains over the 12-instance core '
-                'on {1,null} length <= 2',
+                'on {1,null} length <= 2; dictionaries as elements of hash-based functions length <= 3',
 }
 JOB_LIMIT = {'quick': 900, 'thorough': 5400}
 
@@ -876,7 +877,7 @@ def jobs(tier, seed):
         out.append(('single-%02d' % k, 'job_single', (tier, k, ns)))
     if quick:
         plan2 = [('one', [1, 2, None], (0, 1, 2), 16)]
-        plan3 = [(12, [1, 2, None], 3, 2, 24)]
+        plan3 = [(12, [2, None], 3, 2, 16)]
     else:
         plan2 = [('all', [1, 2, None, 'a'], (0, 1, 2), 48), ('one', [1, 2, None, 'a'], (3,), 16)]
         plan3 = [(16, [1, 2, None], 3, 3, 32), (12, [1, None], 4, 2, 32)]
